@@ -46,6 +46,18 @@ Theorem C19_read_through_survives_down : forall U s now k ttl f, read_through U 
 Proof. exact read_through_survives_down. Qed.
 Print Assumptions C19_read_through_survives_down.
 
+(* is_locked(key, wait, step) on a server nobody else writes to, for every wait and step > 0: the answer is what the reference's
+   `exists` says at the instant the call returns, `rounds wait step` sleeps after it started (F42: the unrepaired code answered
+   True there without asking) *)
+Theorem C19_is_locked_wait : forall U s k st fuel now w b, 0 < st ->
+  b_is_locked fuel U s now k w st = Some b -> b = present s (now + rounds w st * st) k.
+Proof. exact b_is_locked_spec. Qed.
+Print Assumptions C19_is_locked_wait.
+Example C19_is_locked_example :
+  let s := fst (up_step true [] (fun _ => None) 0 (CSetLock "L"%string (VStr "me"%string) 500)) in
+  (b_is_locked 9 [] s 0 "L"%string 500 250, b_is_locked 9 [] s 0 "L"%string 250 125, rounds 500 250) = (Some false, Some true, 2).
+Proof. vm_compute. reflexivity. Qed.
+
 (* non-vacuity: a counter created by incr with a TTL, an integer written by set and incremented, an owner-checked unlock *)
 Open Scope string_scope.
 Example C19_example :
